@@ -8,6 +8,7 @@ Open Scope Z_scope.
 
 Inductive case :=
 | CWhole (ring_size snapshots torn : Z) (ran : bool)   (* snapshots taken concurrently; how many mixed two frames *)
+| CFresh (checks stale : Z) (ran : bool)               (* sequential schedule: snapshots that were not the last completed frame *)
 | CBlank (count : Z)                                   (* snapshots returned before the first frame was processed *)
 | CRaceRun (vars : list Z) (ran : bool)                (* variables the race detector reported *)
 | CRaceVar (v : Z).                                    (* one reported racy variable *)
@@ -17,6 +18,9 @@ Definition check (c : case) : Z :=
   | CWhole size snaps torn ran =>
     (* model: with capacity >= 2 no torn copy exists (whole_frame); with capacity 1 it can *)
     code (ran && ((size <? 2) || (torn =? 0))) (ran && (torn =? 0)) true
+  | CFresh checks stale ran =>
+    (* whole_frame with request and return in the same quiescent interval: j is the last completed frame *)
+    code (ran && (stale =? 0)) (ran && (stale =? 0)) true
   | CBlank n => code true (n =? 0) true
   | CRaceRun vars ran =>
     (* every reported variable must be one the access table marks racy: a race on the ring
